@@ -35,6 +35,22 @@ def worker(pid, tier, seed, spec_file, out_file):
     with open(spec_file, "rb") as fh:
         spec = pickle.load(fh)
     ctx = core.Ctx(pid, tier, seed, shard=spec.get("name", "shard"))
+    entered = ctx.names["repository functions entered while the monitors were installed"]
+    root = os.path.realpath(core.REPO) + os.sep
+    mon = sys.monitoring
+    try:  # which functions of the repository the workload actually drove (one event per code object, then disabled)
+        mon.use_tool_id(mon.COVERAGE_ID, "vf-functions")
+
+        def on_start(code, offset):
+            fn = code.co_filename
+            if fn.startswith(root) or os.path.realpath(fn).startswith(root):
+                entered.add(f"{os.path.relpath(os.path.realpath(fn), root)}:{code.co_qualname}")
+            return mon.DISABLE
+
+        mon.register_callback(mon.COVERAGE_ID, mon.events.PY_START, on_start)
+        mon.set_events(mon.COVERAGE_ID, mon.events.PY_START)
+    except ValueError:
+        pass
     try:
         if hasattr(mod, "setup"):
             mod.setup(ctx)
@@ -99,6 +115,7 @@ def write_evidence(mod, ctx, wall, exhaustive=None):
         "counters": {k: int(v) for k, v in sorted(ctx.counters.items())},
         "known_findings_met": {k: v["count"] for k, v in ctx.known.items()},
         "distinct_observations": {k: len(v) for k, v in sorted(ctx.sets.items())},
+        "names_observed": {k: sorted(v) for k, v in sorted(ctx.names.items())},
         "inconclusive": ctx.inconclusive,
         "notes": ctx.notes,
     }
